@@ -26,10 +26,16 @@ TRUSTED = [
 ASSUMPTIONS = ["deterministic pipeline: same data, configuration and seed give bitwise equal fits (checked by C16)"]
 
 
-def gen_case(ctx, rng):
+def gen_case(ctx, rng, big=False):
     basis = rng.choice(models.BASIS_KINDS)
     ne, nf = rng.randint(2, ctx.scale(7, 10)), rng.randint(2, ctx.scale(8, 12))
+    if big:
+        # more than 127 / 255 modes: counts given as narrow numpy integers (np.int8, np.uint8, np.int16) are still just numbers
+        basis = "identity"
+        ne = rng.randint(130, 140); nf = ne + rng.randint(2, 8)
     X = np.array([[rng.randint(-6, 6) for _ in range(nf)] for _ in range(ne)], dtype=float)
+    if big:
+        X += np.eye(ne, nf) * 20
     if basis == "identity":
         nm = None if rng.random() < 0.4 else rng.randint(1, ne)
     elif basis == "svd":
@@ -44,8 +50,9 @@ def gen_case(ctx, rng):
         k = rng.choice(["set", "set", "get", "predict", "score"])
         if k == "set":
             v = rng.choice(H.INVALID_COUNTS + [nf + 1, nf + 7]) if rng.random() < 0.3 else rng.randint(1, nf)
-            if isinstance(v, int) and rng.random() < 0.1:
-                v = np.int64(v)
+            if isinstance(v, int) and v > 0 and rng.random() < (0.6 if big else 0.25):
+                kinds = [np.int64, np.int32] + ([np.int16] if v < 2 ** 15 else []) + ([np.int8] if v < 128 else []) + ([np.uint8] if v < 256 else [])
+                v = (np.int8 if (big and v < 128) else (np.int16 if big else rng.choice(kinds)))(v)
             ops.append(("set", v, rng.randint(0, 1)))
         elif k in ("predict", "score") and rng.random() < 0.4:
             # documented pass-through keywords of the solver (scipy.linalg.solve / lstsq); `overwrite_a` only ever concerns a
@@ -53,6 +60,8 @@ def gen_case(ctx, rng):
             ops.append((k, rng.choice([{"overwrite_a": True}, {"check_finite": False}, {"overwrite_a": True, "check_finite": False}])))
         else:
             ops.append((k,))
+    if big:
+        ops += [("set", np.int8(rng.randint(1, 127)), rng.randint(0, 1)), ("predict",), ("score",)]
     return {"basis": basis, "n_modes": nm, "ctor": ctor, "opt": opt, "seed": seed, "X": X, "ops": ops}
 
 
@@ -173,6 +182,11 @@ def run(ctx: C.Ctx):
         h = check_case(ctx, case, idx)
         if h is not None:
             hs.append((idx, h))
+    for idx in range(ctx.scale(5, 30)):
+        case = gen_case(ctx, rng, big=True)
+        ctx.evaluations += 1
+        ctx.count("big_identity_model")
+        check_case(ctx, case, 10 ** 6 + idx)
     machine_compare(ctx, hs, "C14")
 
 
